@@ -3,6 +3,7 @@ Props/C04.lean — C04: the accumulated-cost matrix is cell-wise optimal and ide
 Python `warping_paths` = `wpsModel` (matrix `matP`); the C engine stores the same cells in the compact
 layout `wpsParts`/`locColumns`/`wpsLoc` and expands them with `expandSlice`.
 -/
+import Dtaiverif.Props.CBand
 import Dtaiverif.Proofs.Wps
 import Dtaiverif.Proofs.Compact
 import Dtaiverif.Proofs.CostInst
